@@ -30,6 +30,7 @@ class Contract:
     consts: dict = dataclasses.field(default_factory=dict)     # module-level constants
     stmt: str = ''                   # statement contract: name assigned inside the function
     stmt_like: str = ''              # shape of the statement's right-hand side (names may be renamed)
+    stmt_nth: int = 0                # which assignment to `stmt` (0-based) when none has that shape
     block: tuple = ()                # block contract: (first assigned name, last assigned name)
     block_like: str = ''             # shape of the first statement's right-hand side (renamed locals)
     custom: object = None            # callable(verifier, contract, fdef, consts) -> obligations
